@@ -49,6 +49,27 @@ theorem stream_frontends_agree (c1 c2 : Cfg) (h1 : Common c1) (h2 : Common c2)
     · simp [hs1, hs2]
     · rcases t1 with h | h | h <;> rcases t2 with g | g | g <;> simp [h, g]
 
+/-- the asyncio and Twisted datagram front-ends (one protocol object, one framer for all peers) likewise agree on
+    every datagram, well-formed or not -/
+theorem datagram_frontends_agree (c1 c2 : Cfg) (h1 : Common c1) (h2 : Common c2)
+    (hi : c1.ignoreMissing = c2.ignoreMissing) (hf : c1.framer = c2.framer)
+    (t1 : c1.frontend = .aioUdp ∨ c1.frontend = .twistedUdp)
+    (t2 : c2.frontend = .aioUdp ∨ c2.frontend = .twistedUdp)
+    (conn : Conn) (ctx : Units) (chunk : Bytes) :
+    connStep c1 conn ctx chunk = connStep c2 conn ctx chunk := by
+  have hh : handleEvents c1 = handleEvents c2 := by
+    funext c evs; exact handle_common c1 c2 h1 h2 hi hf c evs
+  unfold connStep
+  rw [accepted_common c1 ctx h1, accepted_common c2 ctx h2, hf, hh]
+  split
+  · rfl
+  · simp only []
+    have hs1 : c1.frontend ≠ .syncUdp := by rcases t1 with h | h <;> rw [h] <;> decide
+    have hs2 : c2.frontend ≠ .syncUdp := by rcases t2 with h | h <;> rw [h] <;> decide
+    split
+    · simp [hs1, hs2]
+    · rcases t1 with h | h <;> rcases t2 with g | g <;> simp [h, g]
+
 /-- … and over whole chunk histories -/
 theorem stream_frontends_agree_history (c1 c2 : Cfg) (h1 : Common c1) (h2 : Common c2)
     (hi : c1.ignoreMissing = c2.ignoreMissing) (hf : c1.framer = c2.framer)
